@@ -127,7 +127,7 @@ func SelfValidate(key echx.KeyPair) error {
 }
 
 func Run(r *ev.Run) {
-	r.Rule("E1 exhaustive: 3 AEADs x every subset of 6 shared extensions chosen for compression x every position of the ech_outer_extensions marker x 3 positions of the inner ECH extension x 3 outer layouts (ECH first/middle/last, unrelated extensions interleaved) x padding{0,1,31,32} x session-id length{0,1,32} x key_share 36B/1220B x uncompressed shared extensions kept/omitted x session id inside the encoded inner {empty, 7 B, 32 B differing from the outer one}, plus a size family up to 30 kB (outer hello up to 61 kB) (hellos spanning several records, in and out) small hellos fragmented by the client at 7 cut patterns, reconstructed hellos of exactly k*2^14 and k*2^14 +-1 bytes, and inner hellos without server_name and/or ALPN under outer hellos that carry them; each sealed by the reference sender and fed to the real NewConn; forwarded record compared byte for byte with the reference reconstruction. distinct = distinct outer-hello byte strings")
+	r.Rule("E1 exhaustive: 3 AEADs x every subset of 6 shared extensions chosen for compression x every position of the ech_outer_extensions marker x 3 positions of the inner ECH extension x 3 outer layouts (ECH first/middle/last, unrelated extensions interleaved) x padding{0,1,31,32} x session-id length{0,1,32} x key_share 36B/1220B x uncompressed shared extensions kept/omitted x session id inside the encoded inner {empty, 7 B, 32 B differing from the outer one}, plus a size family up to 30 kB (outer hello up to 61 kB) (hellos spanning several records, in and out) small hellos fragmented by the client at 11 cut patterns (incl. 3-4 records with a last fragment of 1-12 bytes), reconstructed hellos of exactly k*2^14 and k*2^14 +-1 bytes, and inner hellos without server_name and/or ALPN under outer hellos that carry them; each sealed by the reference sender and fed to the real NewConn; forwarded record compared byte for byte with the reference reconstruction. distinct = distinct outer-hello byte strings")
 	r.Assume("tlsref/hpkeref reference sender is correct (validated on every run against crypto/tls and RFC 9180 vectors)", "outer hellos do not repeat an extension type")
 	key := echx.NewKey("c03", 7, echx.AllSuites, "public.example")
 	if err := SelfValidate(key); err != nil {
@@ -205,7 +205,7 @@ func Run(r *ev.Run) {
 		l := layout{AEAD: 1, Refs: []int{1, 2}, MarkerAt: 1, ECHInAt: 2, SID: 32}
 		b := buildLayout(key, l).Build()
 		msg := b.Outer.Msg()
-		for _, cuts := range [][]int{{1}, {4}, {5}, {40}, {len(msg) - 1}, {3, 9}, {100, 200, 300}} {
+		for _, cuts := range [][]int{{1}, {4}, {5}, {40}, {len(msg) - 1}, {3, 9}, {100, 200, 300}, {10, len(msg) - 3}, {10, 20, len(msg) - 7}, {10, 20, 30, len(msg) - 12}, {len(msg) - 3, len(msg) - 2, len(msg) - 1}} {
 			evalStream(r, keys, l, b, tlsref.Fragment(0x0301, msg, cuts...), fmt.Sprintf("fragmented%v", cuts))
 		}
 	}
